@@ -30,9 +30,27 @@ func FullQ(span int) *QCfg {
 
 func refEx(name string) *Ex { return &Ex{Op: "REF", F: name} }
 
+// ResolvedSQL renders an expression with references to table fields replaced
+// by the fields' expressions (the text zenodb matches columns by).
+func ResolvedSQL(e *Ex, fields map[string]*Ex) string {
+	if e.Op == "REF" {
+		if f, ok := fields[e.F]; ok {
+			return f.SQL()
+		}
+		if e.F == "_points" {
+			return "SUM(_point)"
+		}
+		return "SUM(" + e.F + ")"
+	}
+	if len(e.Args) == 2 && e.Op != "IF" {
+		return "(" + ResolvedSQL(e.Args[0], fields) + " " + e.Op + " " + ResolvedSQL(e.Args[1], fields) + ")"
+	}
+	return e.SQL()
+}
+
 // genDerived draws a value expression over references to table fields.
 func genDerived(t *rapid.T, qc *QCfg, names []string, depth int, label string) *Ex {
-	if depth <= 0 || rapid.IntRange(0, 2).Draw(t, label+".leaf") == 0 {
+	if depth <= 0 || (depth < 2 && rapid.IntRange(0, 2).Draw(t, label+".leaf") == 0) {
 		return refEx(rapid.SampledFrom(names).Draw(t, label+".ref"))
 	}
 	op := rapid.SampledFrom([]string{"+", "-", "*", "/"}).Draw(t, label+".op")
@@ -148,6 +166,22 @@ func GenQuery(t *rapid.T, qc *QCfg, s *Schema, table string, label string) *Quer
 				ex = &Ex{Op: "PCTREF", F: rapid.SampledFrom(pctFields).Draw(t, fmt.Sprintf("%s.pf%d", label, i)), Pct: float64(rapid.SampledFrom([]int{5, 50, 95}).Draw(t, fmt.Sprintf("%s.pp%d", label, i)))}
 			default:
 				ex = genDerived(t, qc, opNames, 2, fmt.Sprintf("%s.d%d", label, i))
+			}
+			// a derived field whose resolved text equals a table field's or another
+			// derived field's is the listed finding same-expr-text-fields
+			fm := map[string]*Ex{}
+			texts := map[string]bool{"SUM(_point)": true}
+			for _, f := range sem.Fields {
+				fm[f.Name] = f.Ex
+				texts[f.Ex.SQL()] = true
+			}
+			for _, f := range q.Fields {
+				if f.Ex != nil {
+					texts[ResolvedSQL(f.Ex, fm)] = true
+				}
+			}
+			if ex.Op != "SHIFT" && ex.Op != "PCTREF" && texts[ResolvedSQL(ex, fm)] {
+				continue
 			}
 			q.Fields = append(q.Fields, QField{Name: fmt.Sprintf("q%d", i), Ex: ex})
 		}
